@@ -5,7 +5,7 @@
    the dependents), and from the channel capacity. *)
 From Coq Require Import String.
 From Gen Require Import Skeletons.
-From GW Require Import Verified.
+From GW Require Import Verified VerifiedBodies.
 
 Lemma execute_Execute_skeleton : gen_execute_Execute = verified_execute_Execute.
 Proof. reflexivity. Qed.
@@ -26,4 +26,8 @@ Lemma execute_executorInsertObject_skeleton : gen_execute_executorInsertObject =
 Proof. reflexivity. Qed.
 
 Lemma execute_executorFindInsertionPoints_skeleton : gen_execute_executorFindInsertionPoints = verified_execute_executorFindInsertionPoints.
+Proof. reflexivity. Qed.
+
+(* bodies with their conditions (VerifiedBodies.v) *)
+Lemma execute_Execute_cond_body : gen_execute_Execute_cond = verified_execute_Execute_cond.
 Proof. reflexivity. Qed.
